@@ -52,7 +52,14 @@ extern "C" int LLVMFuzzerTestOneInput(const uint8_t *data, size_t size) {
   int rc, cnt = 0;
   { static const int E[] = {0, EINTR, ERANGE, ENOMEM, EAGAIN, EINVAL, EBADF, EIO}; errno = E[(data[2] >> 4) & 7]; }   // errno is the caller's and arbitrary on entry
   std::vector<char> w(text.begin(), text.end()); w.push_back(0);
-  if (entry == 0) rc = asm_assemble_str(a, text.c_str());
+  // asm_assemble_str takes a const char *: for every other input length the text lies in memory the library can read but not
+  // write (as a string literal or a read-only mapping would), and its NUL is the last byte in front of an inaccessible page
+  const char *ctext = text.c_str();
+  { static char *arena = nullptr; static const size_t SPAN = 1 << 20;
+    if (!arena) { void *m = mmap(nullptr, SPAN + 4096, PROT_NONE, MAP_PRIVATE | MAP_ANONYMOUS, -1, 0); if (m != MAP_FAILED) arena = (char *)m; }
+    if (arena && (size & 1) == 0 && text.size() + 1 <= SPAN) { size_t pg = 4096, len = text.size() + 1, span = (len + pg - 1) / pg * pg; char *lo = arena + SPAN - span;
+      mprotect(lo, span, PROT_READ | PROT_WRITE); memcpy(arena + SPAN - len, text.c_str(), len); mprotect(lo, span, PROT_READ); ctext = arena + SPAN - len; } }
+  if (entry == 0) rc = asm_assemble_str(a, ctext);
   else if (entry == 1) rc = asm_assemble_string_counting_chunks(a, w.data(), (int)chunk, &cnt);
   else {
     int fd = memfd_create("c09", 0); if (fd < 0) { asm_destroy_instance(a); return 0; }
@@ -63,7 +70,7 @@ extern "C" int LLVMFuzzerTestOneInput(const uint8_t *data, size_t size) {
   }
   if (rc != EXIT_SUCCESS && rc != EXIT_FAILURE) die("return value is neither EXIT_SUCCESS nor EXIT_FAILURE", data, size);
   if (twice) { // a further call on the same instance, from wherever the first one left the offset
-    int rc2 = (entry & 1) ? asm_assemble_string_counting_chunks(a, w.data(), (int)chunk, &cnt) : asm_assemble_str(a, text.c_str());
+    int rc2 = (entry & 1) ? asm_assemble_string_counting_chunks(a, w.data(), (int)chunk, &cnt) : asm_assemble_str(a, ctext);
     if (rc2 != EXIT_SUCCESS && rc2 != EXIT_FAILURE) die("return value of the second call is neither EXIT_SUCCESS nor EXIT_FAILURE", data, size);
     if (rc2 != EXIT_SUCCESS) rc = rc2;
   }
